@@ -208,12 +208,29 @@ End Rep.
 (* the propagation loop along the ancestor path                                          *)
 (* ------------------------------------------------------------------------------------ *)
 
+Lemma last_In {A} (l : list A) d : l <> [] -> In (last l d) l.
+Proof.
+  induction l as [|x r IH]; intros NE; [congruence|].
+  destruct r as [|y r']; [left; reflexivity|]. right. apply IH. discriminate.
+Qed.
+
 Lemma path_last_null P : forall u l, path P u l -> l <> [] -> get P (last l NULL) = Ok NULL.
 Proof.
   induction 1 as [|u p l NU G Pl IH]; intros NE; [congruence|].
   destruct l as [|y r].
   - inversion Pl; subst. simpl. exact G.
   - change (last (u :: y :: r) NULL) with (last (y :: r) NULL). apply IH. discriminate.
+Qed.
+
+Lemma path_inner_has_parent P : forall u l, path P u l ->
+  forall x, In x l -> x <> last l NULL -> get P x <> Ok NULL.
+Proof.
+  induction 1 as [|u p l NU G Pl IH]; intros x Hx NL; [destruct Hx|].
+  destruct Hx as [<-|Hx].
+  - intros X. rewrite X in G. inversion G; subst p. inversion Pl; subst; [|congruence].
+    simpl in NL. congruence.
+  - destruct l as [|y r]; [destruct Hx|].
+    apply IH; [exact Hx|]. exact NL.
 Qed.
 
 Lemma propagate_path thr sign c : forall l fuel t u pe0 wr0 t' pe' wr',
@@ -227,7 +244,7 @@ Lemma propagate_path thr sign c : forall l fuel t u pe0 wr0 t' pe' wr',
   (l = [] -> t_ns t' = t_ns t).
 Proof.
   induction l as [|u0 l IH]; intros fuel t u pe0 wr0 t' pe' wr' Pl ND NC H.
-  - inversion Pl; subst. destruct fuel; simpl in H; inversion H; subst. repeat split; congruence.
+  - inversion Pl; subst. destruct fuel; simpl in H; inversion H; subst; repeat split; try congruence.
   - inversion Pl as [|u1 p l1 NU G Pl' E1 E2]; subst.
     destruct fuel; simpl in H; replace (u0 =? NULL) with false in H by (symmetry; apply Z.eqb_neq; exact NU);
       [discriminate|].
@@ -239,28 +256,28 @@ Proof.
     inversion ND as [|? ? ND1 ND2]; subst.
     assert (UC : u0 <> c) by (intros X; apply NC; left; exact X).
     assert (NC' : ~ In c l) by (intros X; apply NC; right; exact X).
-    destruct (IH _ _ _ _ _ _ _ _ Pl' ND2 NC' H) as (I1 & I2 & I3 & I4). simpl in *.
+    destruct (IH fuel (w_nt (w_ns t a) a0) p u0 (thr <=? nsu) t' pe' wr' Pl' ND2 NC' H) as (I1 & I2 & I3 & I4). simpl in *.
     split; [discriminate|]. split; [|split; [|discriminate]].
     + intros _. destruct l as [|y r].
       * destruct (I1 eq_refl) as [-> ->]. simpl. split; [reflexivity|]. exists nsu. auto.
       * destruct (I2 ltac:(discriminate)) as (-> & n & Gn & ->).
         split; [reflexivity|]. exists n. split; [|reflexivity].
         rewrite (get_set_other _ _ _ _ _ E6) in Gn; [exact Gn|].
-        intros X. apply ND1. rewrite X. apply (@exists_last_in Z). 
-    + intros _. exists ac. split; [exact E0|]. intros x. split.
+        intros X. apply ND1. rewrite X. apply last_In. discriminate.
+    + intros _. exists ac. split; [first [exact E0 | reflexivity]|]. intros x. split.
       * intros [<-|Hx].
-        -- exists nsu. split; [exact E|]. destruct l as [|y r].
+        -- exists nsu. split; [first [exact E | reflexivity]|]. destruct l as [|y r].
            ++ rewrite (I4 eq_refl). eapply get_set_same; eauto.
            ++ destruct (I3 ltac:(discriminate)) as (ac' & _ & F). destruct (F u0) as [_ F2].
               rewrite (F2 ND1). eapply get_set_same; eauto.
         -- destruct l as [|y r]; [destruct Hx|].
            destruct (I3 ltac:(discriminate)) as (ac' & Gc' & F). destruct (F x) as [F1 _].
-           destruct (F1 Hx) as (a & Ga & Ga').
+           destruct (F1 Hx) as (ax & Ga & Ga').
            assert (XU : x <> u0) by (intros X; subst; contradiction).
            rewrite (get_set_other _ _ _ x _ E6) in Ga by auto.
            rewrite (get_set_other _ _ _ c _ E6) in Gc' by auto.
            assert (ac' = ac) by congruence. subst ac'.
-           exists a. auto.
+           exists ax. auto.
       * intros NI. assert (XU : x <> u0) by (intros X; apply NI; left; auto).
         assert (NI' : ~ In x l) by (intros X; apply NI; right; exact X).
         destruct l as [|y r].
@@ -268,3 +285,272 @@ Proof.
         -- destruct (I3 ltac:(discriminate)) as (ac' & _ & F). destruct (F x) as [_ F2].
            rewrite (F2 NI'). eapply get_set_other; eauto.
 Qed.
+
+(* ------------------------------------------------------------------------------------ *)
+(* case analysis of the conditional root updates                                          *)
+(* ------------------------------------------------------------------------------------ *)
+
+Lemma cond_remove_root_end_cases V thr t wr pe t3 :
+  cond_remove_root_end V thr t wr pe = Ok t3 ->
+  (wr = true /\ exists n, get (t_ns t) pe = Ok n /\ n < thr /\ remove_branch t V pe = Ok t3) \/
+  (t3 = t /\ (wr = false \/ exists n, get (t_ns t) pe = Ok n /\ thr <= n)).
+Proof.
+  unfold cond_remove_root_end. intros H. destruct wr; [|inversion H; right; auto].
+  bind_inv H. destruct (thr <=? a) eqn:E1; simpl in H.
+  - apply Z.leb_le in E1. inversion H; subst. right. split; [reflexivity|]. right. eauto.
+  - apply Z.leb_gt in E1. left. split; [reflexivity|]. exists a. auto.
+Qed.
+
+Lemma cond_insert_root_c_cases V thr t c t4 :
+  cond_insert_root_c V thr t c = Ok t4 ->
+  exists n, get (t_ns t) c = Ok n /\ ((thr <= n /\ insert_root V t c = Ok t4) \/ (n < thr /\ t4 = t)).
+Proof.
+  unfold cond_insert_root_c. intros H. bind_inv H. exists a. split; [reflexivity|].
+  destruct (thr <=? a) eqn:E1.
+  - apply Z.leb_le in E1. left; auto.
+  - apply Z.leb_gt in E1. inversion H. right; auto.
+Qed.
+
+Lemma cond_remove_root_c_cases V thr t c t2 :
+  cond_remove_root_c V thr t c = Ok t2 ->
+  exists n, get (t_ns t) c = Ok n /\ ((thr <= n /\ remove_branch t V c = Ok t2) \/ (n < thr /\ t2 = t)).
+Proof.
+  unfold cond_remove_root_c. intros H. bind_inv H. exists a. split; [reflexivity|].
+  destruct (thr <=? a) eqn:E1.
+  - apply Z.leb_le in E1. left; auto.
+  - apply Z.leb_gt in E1. inversion H. right; auto.
+Qed.
+
+Lemma cond_insert_root_end_cases V thr t wr pe t3 :
+  cond_insert_root_end V thr t wr pe = Ok t3 ->
+  exists n, get (t_ns t) pe = Ok n /\
+    ((thr <= n /\ wr = false /\ insert_root V t pe = Ok t3) \/ ((n < thr \/ wr = true) /\ t3 = t)).
+Proof.
+  unfold cond_insert_root_end. intros H. bind_inv H. exists a. split; [reflexivity|].
+  destruct (thr <=? a) eqn:E1; destruct wr; simpl in H.
+  - inversion H. right. auto.
+  - apply Z.leb_le in E1. left. auto.
+  - apply Z.leb_gt in E1. inversion H. right. auto.
+  - apply Z.leb_gt in E1. inversion H. right. auto.
+Qed.
+
+Lemma insert_root_split V t r t' : insert_root V t r = Ok t' ->
+  exists t1, insert_branch t V r = Ok t1 /\ same_links t1 t' /\ t_ns t' = t_ns t.
+Proof.
+  unfold insert_root. intros H. bind_inv H. exists a. split; [reflexivity|].
+  pose proof (insert_branch_cnt _ _ _ _ E) as [X _]. pose proof (s_parent_cnt _ _ _ _ H) as [Y _].
+  split; [eapply s_parent_l; eauto | congruence].
+Qed.
+
+(* paths in a forest whose parents are strictly older *)
+Lemma path_facts N tm P : Mono N tm P -> forall u l, path P u l -> 0 <= u < N ->
+  NoDup l /\ (forall a, In a l -> 0 <= a < N /\ tm u <= tm a) /\ l <> [].
+Proof.
+  intros MO. induction 1 as [|u p l NU G Pl IH]; intros Hu; [unfold NULL in Hu; lia|].
+  split; [|split; [|discriminate]].
+  - constructor.
+    + destruct (Z.eq_dec p NULL) as [->|NP]; [inversion Pl; subst; [intros []|congruence]|].
+      destruct (MO u p G NP) as (_ & Hp & Ht). destruct (IH Hp) as (_ & R & _).
+      intros X. destruct (R u X). lia.
+    + destruct (Z.eq_dec p NULL) as [->|NP]; [inversion Pl; subst; [constructor|congruence]|].
+      destruct (MO u p G NP) as (_ & Hp & _). apply IH. exact Hp.
+  - intros a [<-|Ha]; [split; [exact Hu | lia]|].
+    destruct (Z.eq_dec p NULL) as [->|NP]; [inversion Pl; subst; [destruct Ha|congruence]|].
+    destruct (MO u p G NP) as (_ & Hp & Ht). destruct (IH Hp) as (_ & R & _).
+    destruct (R a Ha). split; [assumption | lia].
+Qed.
+
+Section RepInv.
+  Variables (L : Z) (ns : list node) (es : list edge) (Ins Rem : list Z) (q : tseq).
+  Hypothesis HV : valid_edges L ns es.
+  Hypothesis HI : index_sorted es Ins Rem.
+  Hypothesis HQ : mk_tseq L ns es Ins Rem = Ok q.
+  Variable o : topts.
+  Hypothesis Hthr : 1 <= o_thr o.
+
+  Let N := zlen ns.
+  Let thr := o_thr o.
+
+  Definition Own (t : tree) (K : Z -> list Z) : Prop :=
+    (forall p c, 0 <= p < N -> (In c (K p) <-> 0 <= c < N /\ get (t_parent t) c = Ok p)) /\
+    (forall c, In c (K N) <->
+       0 <= c < N /\ get (t_parent t) c = Ok NULL /\ exists n, get (t_ns t) c = Ok n /\ thr <= n).
+
+  Definition Jrep (t : tree) : Prop :=
+    Jcnt ns q o t /\ exists K, LinkRep N t K /\ Own t K.
+
+  Lemma in_remove_mid {A} (l1 l2 : list A) c x : NoDup (l1 ++ c :: l2) ->
+    (In x (l1 ++ l2) <-> In x (l1 ++ c :: l2) /\ x <> c).
+  Proof.
+    intros ND. pose proof (NoDup_remove_2 _ _ _ ND) as NI. split.
+    - intros H. split.
+      + apply in_app_iff in H as [H|H]; apply in_app_iff; [left | right; right]; exact H.
+      + intros ->. contradiction.
+    - intros [H NE]. apply in_app_iff in H as [H|[H|H]]; apply in_app_iff; [left; exact H | congruence | right; exact H].
+  Qed.
+
+  Lemma qN' : q_N q = N.
+  Proof. exact (qN L ns es Ins Rem q HQ). Qed.
+
+  Lemma Jrep_remove t e t' : Jrep t -> In e es ->
+    get (t_parent t) (echild e) = Ok (eparent e) ->
+    remove_edge q o t (eparent e) (echild e) = Ok t' -> Jrep t'.
+  Proof.
+    intros [JC (K & LR & [O1 O2])] He GP H.
+    pose proof (Jcnt_remove L ns es q HV o t e t' JC He GP H) as JC'.
+    split; [exact JC'|].
+    destruct JC as (L0 & L1 & L2 & GV & MO & LE1 & LE2 & NN1 & NN2).
+    destruct (edge_tm L ns es HV e He) as (Hc & Hp & Ht). fold N in Hc, Hp.
+    set (p := eparent e) in *. set (c := echild e) in *.
+    pose proof (remove_edge_par _ _ _ _ _ _ H) as SP.
+    destruct (remove_edge_cnt _ _ _ _ _ _ H) as (_ & C1 & _).
+    unfold remove_edge in H. rewrite qN' in H. fold thr in H.
+    bind_inv H. rename a into t0. bind_inv H. rename a into t1.
+    bind_inv H. destruct a as [[t2 pe] wr]. bind_inv H. rename a into t3. bind_inv H. rename a into t4.
+    (* the child list of p loses c *)
+    assert (CK : In c (K p)) by (apply O1; auto).
+    destruct (in_split _ _ CK) as (l1 & l2 & EK).
+    pose proof (LinkRep_remove N t t0 K p c l1 l2 E LR ltac:(lia) EK) as LR0.
+    set (K0 := updK K p (l1 ++ l2)) in *.
+    pose proof (remove_branch_par _ _ _ _ E) as P0.
+    pose proof (remove_branch_cnt _ _ _ _ E) as [N0 _].
+    assert (SL1 : same_links t0 t1) by (apply s_edge_l in E0; exact E0).
+    pose proof (s_edge_par _ _ _ _ E0) as P1. simpl in P1.
+    pose proof (s_edge_cnt _ _ _ _ E0) as [N1 _]. simpl in N1.
+    pose proof (LinkRep_same N _ _ _ SL1 LR0) as LR1.
+    (* the ancestor path of p after the removal *)
+    assert (MO0 : Mono N (tmf ns) (t_parent t0)) by (eapply Mono_set_null; eauto).
+    assert (ZL0 : zlen (t_parent t0) = N + 1).
+    { unfold zlen. rewrite (set_length _ _ _ _ P0), L0. lia. }
+    destruct (path_exists N (tmf ns) (t_parent t0) ZL0 MO0 p ltac:(lia)) as [l Pl].
+    destruct (path_facts N (tmf ns) (t_parent t0) MO0 p l Pl Hp) as (NDl & Rl & NEl).
+    assert (NCl : ~ In c l) by (intros X; destruct (Rl c X); lia).
+    rewrite <- P1 in Pl.
+    destruct (propagate_path thr (-1) c l _ t1 p NULL false t2 pe wr Pl NDl NCl E1) as (_ & PE & NS & _).
+    destruct (PE NEl) as (EPE & npe & Gnpe & EWR). destruct (NS NEl) as (ac & Gac & NSx).
+    pose proof (propagate_l _ _ _ _ _ _ _ _ _ _ _ E1) as SL2.
+    pose proof (propagate_par _ _ _ _ _ _ _ _ _ _ _ E1) as (P2 & _ & _).
+    pose proof (LinkRep_same N _ _ _ SL2 LR1) as LR2.
+    assert (PEin : In pe l) by (rewrite EPE; apply last_In; exact NEl).
+    destruct (Rl pe PEin) as [PEr _].
+    assert (PEC : pe <> c) by (intros X; rewrite X in PEin; contradiction).
+    assert (PEnull : get (t_parent t0) pe = Ok NULL).
+    { rewrite EPE. rewrite P1 in Pl. apply (path_last_null _ _ _ Pl NEl). }
+    assert (PEnull' : get (t_parent t) pe = Ok NULL).
+    { rewrite <- PEnull. symmetry. eapply get_set_other; eauto. }
+    assert (NS1 : t_ns t1 = t_ns t) by congruence.
+    rewrite NS1 in *.
+    assert (ACnn : 0 <= ac).
+    { apply (nonneg_get (t_ns t) c); [exact NN1 | first [exact Gac | rewrite <- NS1; exact Gac]]. }
+    (* root removal of path_end *)
+    assert (exists K3, LinkRep N t3 K3 /\ t_parent t3 = t_parent t0 /\ t_ns t3 = t_ns t2 /\
+              (forall p', p' <> N -> K3 p' = K0 p') /\
+              (forall x, In x (K3 N) <-> In x (K N) /\
+                 ~ (x = pe /\ wr = true /\ exists n, get (t_ns t2) pe = Ok n /\ n < thr)))
+      as (K3 & LR3 & P3 & N3 & K3o & K3n).
+    { destruct (cond_remove_root_end_cases _ _ _ _ _ _ E2) as [(W & n & Gn & Ln & RB)|(-> & W)].
+      - assert (PK : In pe (K0 N)).
+        { unfold K0. rewrite updK_other by lia. apply O2. split; [exact PEr|]. split; [exact PEnull'|].
+          exists npe. split; [exact Gnpe|]. subst wr. apply Z.leb_le. exact W. }
+        destruct (in_split _ _ PK) as (m1 & m2 & EM).
+        pose proof (LinkRep_remove N t2 t3 K0 N pe m1 m2 RB LR2 ltac:(unfold N, zlen; lia) EM) as LR3.
+        exists (updK K0 N (m1 ++ m2)). split; [exact LR3|].
+        pose proof (remove_branch_par _ _ _ _ RB) as P3.
+        pose proof (remove_branch_cnt _ _ _ _ RB) as [N3 _].
+        split; [|split; [exact N3|split]].
+        + transitivity (t_parent t2); [|congruence]. eapply set_same; [|exact P3]. rewrite P2, P1. exact PEnull.
+        + intros p' NE. apply updK_other. exact NE.
+        + intros x. rewrite updK_same.
+          assert (NDm : NoDup (m1 ++ pe :: m2)) by (rewrite <- EM; apply (lr_nodup N _ _ LR2); unfold N, zlen; lia).
+          rewrite (in_remove_mid m1 m2 pe x NDm). rewrite <- EM. unfold K0. rewrite updK_other by lia.
+          split.
+          * intros [A B]. split; [exact A|]. intros (X & _). contradiction.
+          * intros [A B]. split; [exact A|]. intros X. apply B. split; [exact X|]. split; [exact W|]. eauto.
+      - exists K0. split; [exact LR2|]. split; [congruence|]. split; [reflexivity|]. split; [reflexivity|].
+        intros x. unfold K0. rewrite updK_other by lia. split.
+        + intros A. split; [exact A|]. intros (_ & W1 & n & Gn & Ln).
+          destruct W as [W|(n' & Gn' & Ln')]; [congruence|]. assert (n = n') by congruence. lia.
+        + intros [A _]. exact A. }
+    (* root insertion of c *)
+    destruct (cond_insert_root_c_cases _ _ _ _ _ E3) as (nc & Gnc & Cc).
+    assert (NCc : get (t_ns t2) c = Ok ac).
+    { destruct (NSx c) as [_ X]. rewrite (X NCl). exact Gac. }
+    rewrite N3, NCc in Gnc. inversion Gnc; subst nc. clear Gnc.
+    assert (Fresh : forall p', 0 <= p' <= N -> ~ In c (K3 p')).
+    { intros p' Hp' X. destruct (Z.eq_dec p' N) as [->|NE].
+      - apply K3n in X as [X _]. apply O2 in X as (_ & X & _). rewrite GP in X. inversion X as [X']. unfold NULL in X'. lia.
+      - rewrite (K3o p' NE) in X. unfold K0, updK in X. destruct (p' =? p) eqn:EP.
+        + pose proof (lr_nodup N _ _ LR p ltac:(lia)) as NDp. rewrite EK in NDp.
+          apply (in_remove_mid l1 l2 c c NDp) in X. destruct X; congruence.
+        + apply Z.eqb_neq in EP. exact (lr_disj N _ _ LR p p' c ltac:(lia) Hp' ltac:(congruence) CK X). }
+    assert (exists K4, LinkRep N t4 K4 /\ t_parent t4 = t_parent t0 /\ t_ns t4 = t_ns t2 /\
+              (forall p', p' <> N -> K4 p' = K0 p') /\
+              (forall x, In x (K4 N) <-> In x (K3 N) \/ (x = c /\ thr <= ac)))
+      as (K4 & LR4 & P4 & N4 & K4o & K4n).
+    { destruct Cc as [(Tc & IR)|(Tc & ->)].
+      - destruct (insert_root_split _ _ _ _ IR) as (t3' & IB & SL & NSs).
+        pose proof (LinkRep_insert N t3 t3' K3 N c IB LR3 ltac:(unfold N, zlen; lia) Hc Fresh) as LRi.
+        exists (updK K3 N (K3 N ++ [c])). split; [eapply LinkRep_same; eauto|].
+        split; [|split; [congruence|split]].
+        + rewrite <- P3. eapply insert_root_par_same; eauto. rewrite P3. eapply get_set_same; eauto.
+        + intros p' NE. rewrite updK_other by exact NE. auto.
+        + intros x. rewrite updK_same, in_app_iff. simpl. split.
+          * intros [A|[A|[]]]; [left; exact A | right; split; [congruence | exact Tc]].
+          * intros [A|[A _]]; [left; exact A | right; left; congruence].
+      - exists K3. split; [exact LR3|]. split; [exact P3|]. split; [exact N3|]. split; [exact K3o|].
+        intros x. split; [intros A; left; exact A | intros [A|[_ A]]; [exact A | lia]]. }
+    pose proof (cond_lists_l _ _ _ _ _ H) as SL5.
+    pose proof (cond_lists_cnt _ _ _ _ _ H) as [N5 _].
+    exists K4. split; [eapply LinkRep_same; eauto|].
+    assert (PF : t_parent t' = t_parent t0) by (rewrite SP in P0; inversion P0; reflexivity).
+    assert (NF : t_ns t' = t_ns t2) by congruence.
+    split.
+    - (* lists of real nodes *)
+      intros p' x Hp'. rewrite (K4o p' ltac:(lia)). rewrite PF. unfold K0, updK.
+      rewrite (get_set _ _ _ x _ P0).
+      destruct (p' =? p) eqn:EP.
+      + apply Z.eqb_eq in EP. subst p'.
+        pose proof (lr_nodup N _ _ LR p ltac:(lia)) as NDp. rewrite EK in NDp.
+        rewrite (in_remove_mid l1 l2 c x NDp), <- EK, (O1 p x Hp').
+        destruct (x =? c) eqn:EX.
+        * apply Z.eqb_eq in EX. subst x. split; [intros [_ X]; congruence | intros [_ X]; inversion X; unfold NULL in *; lia].
+        * apply Z.eqb_neq in EX. tauto.
+      + apply Z.eqb_neq in EP. rewrite (O1 p' x Hp').
+        destruct (x =? c) eqn:EX.
+        * apply Z.eqb_eq in EX. subst x. rewrite GP.
+          split; [intros [_ X]; inversion X; congruence | intros [_ X]; inversion X; unfold NULL in *; lia].
+        * tauto.
+    - (* roots *)
+      intros x. rewrite K4n, K3n, O2, PF, NF. rewrite (get_set _ _ _ x _ P0).
+      destruct (Z.eq_dec x c) as [->|XC].
+      + rewrite Z.eqb_refl. rewrite GP. split.
+        * intros [[(_ & X & _) _]|[_ T]]; [inversion X; unfold NULL in *; lia|].
+          split; [exact Hc|]. split; [reflexivity|]. exists ac. auto.
+        * intros (_ & _ & n & Gn & Tn). right. split; [reflexivity|]. rewrite NCc in Gn. inversion Gn. lia.
+      + replace (x =? c) with false by (symmetry; apply Z.eqb_neq; exact XC).
+        destruct (NSx x) as [NSin NSout].
+        destruct (in_dec Z.eq_dec x l) as [Xin|Xout].
+        * destruct (NSin Xin) as (a & Ga & Ga').
+          destruct (Z.eq_dec x pe) as [->|XP].
+          -- assert (a = npe) by congruence. subst a. split.
+             ++ intros [[(_ & _ & n & Gn & Tn) NR]|[X _]]; [|congruence].
+                split; [exact PEr|]. split; [exact PEnull'|]. exists (npe + -1 * ac). split; [exact Ga'|].
+                destruct (Z_lt_le_dec (npe + -1 * ac) thr) as [Lt|Ge]; [|exact Ge].
+                exfalso. apply NR. split; [reflexivity|]. split; [|eauto].
+                rewrite EWR. apply Z.leb_le. assert (n = npe) by congruence. lia.
+             ++ intros (_ & _ & n & Gn & Tn). left.
+                assert (En : n = npe + -1 * ac) by congruence. split.
+                ** split; [exact PEr|]. split; [exact PEnull'|]. exists npe. split; [exact Ga|]. lia.
+                ** intros (_ & _ & n' & Gn' & Ln'). assert (n' = npe + -1 * ac) by congruence. lia.
+          -- (* an inner node of the path has a parent *)
+             assert (NP : get (t_parent t) x <> Ok NULL).
+             { rewrite P1 in Pl. rewrite <- (get_set_other _ _ _ x _ P0) by auto.
+               apply (path_inner_has_parent _ _ _ Pl x Xin). rewrite <- EPE. exact XP. }
+             split.
+             ++ intros [[(_ & X & _) _]|[X _]]; congruence.
+             ++ intros (_ & X & _). congruence.
+        * rewrite (NSout Xout). split.
+          -- intros [[A _]|[X _]]; [exact A | congruence].
+          -- intros A. left. split; [exact A|]. intros (X & _). subst x. contradiction.
+  Qed.
+End RepInv.
